@@ -1,14 +1,15 @@
 import SimilarVerif.Lemmas.Replace
 import SimilarVerif.Lemmas.Compact
+import SimilarVerif.Lemmas.CompactTotal
 /-!
 # C10 — Compact and Replace preserve meaning and cost of any valid script
 
 Status: the `Replace` half is **full** (any valid script, any interleaving of delete/insert runs).
-The `Compact` half is proved as PARTIAL correctness: whenever `cleanup_diff_ops` returns, the result is
-a valid script for the same sequences with the same item counts (for every loop bound, shipped and
-repaired variant).  That it always returns on valid input (no index underflow, termination of the
-`while let` loops) is Lemmas/CompactTotal.lean (in progress); the model reports a non-terminating loop
-as `fuel`, which the correspondence over all valid scripts of a small scope would expose.
+The `Compact` half is **full** as well: on every valid script whose carried indices obey C01's rule
+the clean-up returns (no index underflow in the shift helpers, both `while let` loops and the outer
+pointer loop terminate — the termination proof showed that the outer loop needs a QUADRATIC number of
+rounds on a family of inputs, DESIGN.md §13), and the result is a valid script for the same sequences
+with the same item counts, shipped and repaired variant.
 -/
 namespace SimilarVerif.C10
 open SimilarVerif Spec
@@ -35,6 +36,11 @@ theorem compact_preserves (E : Env) (repair : Bool) (ops : List Op) (o n o' n' :
     Walk (eqB E) o n ops' o' n' ∧ nDel ops' = nDel ops ∧ nIns ops' = nIns ops ∧ nEq ops' = nEq ops ∧
       NoReplaceOp ops' ∧ w'.clock = w.clock ∧ w'.probes = w.probes :=
   CompactP.cleanup_preserves E repair ops o n o' n' w ops' w' hnr hw h
+
+/-- **the clean-up is total on valid input** (exact or run-relative carried indices, in-bounds ranges):
+it neither panics nor loops -/
+theorem compact_total_exact : type_of% @CompactT.cleanup_total_exact := @CompactT.cleanup_total_exact
+theorem compact_total_carried : type_of% @CompactT.cleanup_total_carried := @CompactT.cleanup_total_carried
 
 /-- **Compact then Replace**: the composition is again valid, cost preserving and alternating -/
 theorem compact_replace_preserves (E : Env) (repair : Bool) (ops : List Op) (o n o' n' : Nat) (w : World)
